@@ -2,12 +2,12 @@ SPECIFICATION Spec
 CONSTANTS
   KeyNames = {"k1"}
   Secrets = {"s1"}
-  Algs <- MCTwoAlgs
+  Algs <- MCAllAlgs
   Fudges = {0, 2}
-  Skews <- MCSkews4
+  Skews <- MCSkews6
   Errors = {0, 16}
-  Kinds = {"query", "response", "stream"}
-  MaxEnv = 4
+  Kinds = {"query", "response"}
+  MaxEnv = 3
   MaxFaults = 2
 INVARIANT TypeOK
 INVARIANT GenuineAccepted
